@@ -1,17 +1,33 @@
 """C01 -- no input can crash the host: evaluation always returns a value or an error.
 
 spec: CrashTrace (the interpreter as seen by the Go caller: every entry-point call returns with an outcome in
-      {value, error, more-input, budget}; panics, nil results and process death are not outcomes of the machine)
-bind: in worker subprocesses: every special form x arity 0..3 x 15 argument shapes; every callable name bound in a
-      sandboxed+StandardSetup interpreter (dumped live, so new primitives are included) x arity 0..3 x a 15-value
-      palette; all strings over a 40-token alphabet up to length 3; sequences of calls on one interpreter;
-      byte/token mutations of the script corpus; through EvalString, LoadString+Run, ParseTokens+EvalExpressions
-      and macexpand; with the verif step budget armed. TLC validates every recorded outcome sequence.
+      {value, error, more-input, budget}, a REPL session ends in the ordinary way at the end of its input; panics,
+      nil results, the death or the exit of the process and a call that does not return are not outcomes of the
+      machine; a program the step budget does not bound may fail to return, nothing else; named deviations
+      exit-ends-host and chan-blocks-forever with the channel model they are stated in)
+bind: in worker subprocesses (stack bound lowered, so that a recursion without end is over in a second): every
+      special form x arity 0..3 x 16 argument shapes; every callable name bound in a sandboxed+StandardSetup
+      interpreter, and those only the full interpreter has, in the full one (dumped live, so new primitives are
+      included; none left out) x arity 0..3 x a 16-value palette (one value a huge size); index forms and sizes;
+      re-definitions across value kinds; all strings over a 40-token alphabet up to length 3; sequences of calls on
+      one interpreter; values that contain themselves x every callable name, every special form and the routes on
+      which values are rendered unasked; texts nested as deep as they are long and long flat texts; macros and
+      functions that call themselves without end; programs over a channel of their own; byte/token mutations of the
+      script corpus; through EvalString, LoadString+Run, ParseTokens+EvalExpressions, macexpand and zygo.Repl on a
+      pipe; with the verif step budget armed. TLC validates every recorded outcome sequence.
 """
 import collections, json, os
 import vlib, flow
 
 PROP = "C01"
+DEVS = ("exit-ends-host", "chan-blocks-forever")
+
+
+def _devs():
+    if os.environ.get("VERIF_DEVS") is not None:      # development aid
+        return os.environ["VERIF_DEVS"]
+    ids = [k["id"] for k in vlib.known_findings(PROP) if k["id"] in DEVS]
+    return ",".join(ids) if ids else "none"
 
 
 def run():
@@ -19,28 +35,41 @@ def run():
     zv = vlib.build_zv()
     trace = os.path.join(vlib.scratch(), "crash.ndjson")
     vlib.run_zv(zv, "crash", [], trace, timeout=3000)
-    cases, v = flow.validate(out, "crash", "CrashTrace.tla", "CrashTrace.cfg", trace, zv, max_confirm=40)
-    by = collections.Counter((c["src"], c["entry"]) for c in cases.values())
+    cases, v = flow.validate(out, "crash", "CrashTrace.tla", "CrashTrace.cfg", trace, zv, max_confirm=40,
+                             env={"VERIF_DEVS": _devs()})
+    by = collections.Counter((c["src"], c["cfg"], c["entry"]) for c in cases.values())
     outs = collections.Counter(o[0] for c in cases.values() for o in c["outs"])
     texts = set(t for c in cases.values() for t in c["texts"])
-    hung = [i for i in cases if v[i][0] == "skip"]  # not run: the shard had too many hung cases
+    notrun = [i for i in cases if v[i][0] == "skip"]  # not run: the shard had too many hung or dead workers
+    bad = collections.Counter((cases[i]["src"], v[i][1]) for i in cases if v[i][0] == "bad")
+    for (src, what), n in sorted(bad.items()):
+        vlib.log("rejected: %d cases of source %s (%s)" % (n, src, what))
     cov = {
         "evaluations": sum(len(c["outs"]) for c in cases.values()),
         "distinct_nontrivial": len(texts),
         "rule": "a case is a sequence of 1-3 texts on one interpreter through one entry point; distinct = distinct texts "
                 "(every text is a malformed or boundary input by construction: special form x arity x shape, callable x "
-                "palette, token strings, corpus mutants)",
+                "palette, token strings, corpus mutants, self-containing values, deep and long texts, endless recursion, "
+                "channel programs, REPL sessions)",
         "cases": len(cases),
-        "by_source_and_entry": {"%s/%s" % k: n for k, n in sorted(by.items())},
+        "by_source_cfg_entry": {"%s/%s/%s" % k: n for k, n in sorted(by.items())},
         "outcomes": dict(outs),
-        "not_run": len(hung),
+        "not_run": len(notrun),
+        "rejected_by_source": {"%s/%s" % k: n for k, n in sorted(bad.items())},
         "states": out.states, "transitions": out.transitions,
-        "samples": [{"entry": c["entry"], "texts": c["texts"], "outs": c["outs"]} for c in list(cases.values())[::max(1, len(cases) // 3)][:3]],
+        "samples": [{"entry": c["entry"], "texts": [t[:200] for t in c["texts"]], "outs": c["outs"]}
+                    for c in list(cases.values())[::max(1, len(cases) // 3)][:3]],
     }
     return flow.finish(out, "exploration", cov, [
-        "the step budget (verif hook) bounds evaluation; resource exhaustion by a single huge allocation request is excluded from the palette",
-        "names whose purpose is to leave the process or block on input (exit, sys/system, sleep, stdin readers, file writers) are excluded from the callable universe",
-        "the interactive line reader and cmd/zygo are exercised by C08's subprocess probes, not here",
+        "the step budget (verif hook) bounds evaluation; programs it does not bound (macros and functions that call "
+        "themselves without end) run without it and may fail to return, but must not end the process",
+        "the workers lower Go's bound on a goroutine stack from 1 GB to 48 MB (32 MB in effect): a recursion without end, "
+        "or as deep as the text is long, ends the process at either bound; texts are at most 1 MB",
+        "no callable name is left out; (sleep n) is not given the huge size (it returns after n milliseconds); the "
+        "workers run in a throw-away directory with an empty standard input, the shell commands of the palette are inert",
+        "what a command started by system does to the host is not an outcome of the call",
+        "cmd/zygo -c and script files reach the interpreter through EvalString and LoadFile+Run, which are exercised "
+        "in process; the REPL is exercised through zygo.Repl on a pipe (no line editor)",
     ])
 
 
@@ -51,7 +80,7 @@ def replay(path):
     open(rp, "w").write(json.dumps(rec["case"]) + "\n")
     fresh = os.path.join(vlib.scratch(), "fresh.ndjson")
     vlib.run_zv1(zv, "crash", ["-replay", rp], out=fresh)
-    v, _ = vlib.validate_trace("CrashTrace.tla", "CrashTrace.cfg", fresh)
+    v, _ = vlib.validate_trace("CrashTrace.tla", "CrashTrace.cfg", fresh, env={"VERIF_DEVS": _devs()})
     bad = [i for i in v if v[i][0] == "bad"]
     for i in bad:
         print("VIOLATION property=%s replay=%s" % (PROP, path))
